@@ -208,6 +208,31 @@ def run(ctx):
             ctx.violation(Finding('R-LINEORDER', RP, W, p, 'header line %d carries %s but the reader interprets line %d as %s (%s)'
                                   % (k, sorted(written) or norm(p)[:40], k, attrs, cname)))
     ctx.floor('line-order pairs', n_order, 10)
+    # ---- R-LINESTATE: the reader's line-number state machine is consistent (size algebra over its own definitions)
+    ctx.rule('R-LINESTATE', 'reader line constants: variable lines, special-comment block and user-comment block are contiguous')
+    lenv = {}
+    defs = {}
+    for st in iter_stmts(rd.body):
+        if isinstance(st, ast.Assign) and isinstance(st.targets[0], ast.Name) and st.targets[0].id.endswith('_LINE'):
+            try:
+                defs[st.targets[0].id] = to_poly(st.value, dict(lenv), atomize=atomize)
+                lenv[st.targets[0].id] = defs[st.targets[0].id]
+            except Exception:
+                pass
+    nv, ns = Poly.atom('len(missing)'), Poly.atom('n_special_comments')
+    wantd = {'LAST_VAR_DESC_LINE': Poly.const(consts['MISSING_LINE']) + nv,
+             'SPECIAL_COMMENT_COUNT_LINE': Poly.const(consts['MISSING_LINE']) + nv + 1,
+             'LAST_SPECIAL_COMMENT_LINE': Poly.const(consts['MISSING_LINE']) + nv + 1 + ns,
+             'USER_COMMENT_COUNT_LINE': Poly.const(consts['MISSING_LINE']) + nv + 2 + ns}
+    wr = 'src/PseudoNetCDF/%s ffi1001.__init__' % RP
+    for k, wv in sorted(wantd.items()):
+        if k not in defs:
+            ctx.undec('R-LINESTATE', k, wr, 'definition not found')
+        elif defs[k] == wv:
+            ctx.ok('R-LINESTATE', k, wr, '%s = %s' % (k, defs[k]))
+        else:
+            ctx.violation(Finding('R-LINESTATE', RP, 'ffi1001.__init__', [s2 for s2 in iter_stmts(rd.body) if isinstance(s2, ast.Assign) and norm(s2.targets[0]) == k][0],
+                                  'reader line constant %s = %s, but the blocks are contiguous only if it is %s' % (k, defs[k], wv)))
     # ---- R-MISSRC
     miss_print = prints[consts['MISSING_LINE'] - 1]
     decl = [c for c in walk_expr(miss_print) if isinstance(c, ast.Call) and dotted(c.func) == 'getattr' and len(c.args) == 3]
